@@ -136,6 +136,13 @@ func New(ctx context.Context, params ...Parameter) (*Service, error) {
 func (s *Service) SetBeaconBlockRoot(slot phase0.Slot, root phase0.Root) {
 	s.beaconBlockRootsMu.Lock()
 	s.beaconBlockRoots[slot] = root
+	// Roots are removed when they are used for aggregation, but most slots have no aggregation
+	// so remove any that are too old to be used.
+	for oldSlot := range s.beaconBlockRoots {
+		if uint64(oldSlot)+s.slotsPerEpoch < uint64(slot) {
+			delete(s.beaconBlockRoots, oldSlot)
+		}
+	}
 	s.beaconBlockRootsMu.Unlock()
 }
 
